@@ -4,7 +4,7 @@ use crate::cov::Cov;
 use crate::events::*;
 use crate::math::{self, PubVerdict};
 use crate::refhpke;
-use crate::shim::{Draw, ScriptRng};
+use crate::shim::ScriptRng;
 use crate::suites::*;
 use crate::util::{hex, short_hex};
 use crate::world::*;
@@ -65,9 +65,9 @@ impl World {
                 if ca != cb {
                     return Err(self.viol("single-shot.seal.ct", format!("setup_sender + seal: {}", short_hex(cb)), short_hex(ca)));
                 }
-                let want = vec![Draw::Fill(kem.rfc_sizes().2)];
-                if rng.draws != want {
-                    return Err(self.viol("single-shot.seal.rng-draws", format!("{:?}", want), format!("{:?}", rng.draws)));
+                let want_bytes = kem.rfc_sizes().2;
+                if rng.total_bytes() != want_bytes {
+                    return Err(self.viol("single-shot.seal.rng-draws", format!("exactly Nsk = {} bytes drawn from the caller\'s RNG", want_bytes), format!("{} bytes: {:?}", rng.total_bytes(), rng.draws)));
                 }
             }
             (Ok((ea, _)), None) => return Err(self.viol("single-shot.seal.outcome", "the composed form failed, so must single-shot".into(), format!("Ok(enc={})", hex(ea)))),
@@ -205,9 +205,9 @@ impl World {
         let nsk = kem.rfc_sizes().2;
         cov.hit(&format!("gen.{:?}", kem));
         cov.sig_event("Gen", &format!("{:?}{}", kem, script.len().min(nsk + 1)));
-        let want = vec![Draw::Fill(nsk)];
-        if rng.draws != want {
-            return Err(self.viol("gen.rng-draws", format!("{:?}", want), format!("{:?}", rng.draws)));
+        let want_bytes = nsk;
+        if rng.total_bytes() != want_bytes {
+            return Err(self.viol("gen.rng-draws", format!("exactly Nsk = {} bytes drawn from the caller\'s RNG", want_bytes), format!("{} bytes: {:?}", rng.total_bytes(), rng.draws)));
         }
         let mut ikm = script.to_vec();
         ikm.resize(nsk.max(script.len()), 0);
@@ -269,9 +269,9 @@ impl World {
                     if enc != renc {
                         return Err(self.viol("encap.enc", format!("enc = pk(DeriveKeyPair(rng bytes)) = {}", hex(renc)), hex(enc)));
                     }
-                    let want = vec![Draw::Fill(nsk)];
-                    if rng.draws != want {
-                        return Err(self.viol("encap.rng-draws", format!("{:?}", want), format!("{:?}", rng.draws)));
+                    let want_bytes = nsk;
+                    if rng.total_bytes() != want_bytes {
+                        return Err(self.viol("encap.rng-draws", format!("exactly Nsk = {} bytes drawn from the caller\'s RNG", want_bytes), format!("{} bytes: {:?}", rng.total_bytes(), rng.draws)));
                     }
                 }
             }
